@@ -40,7 +40,9 @@ func TString(t *ast.Type) string { panic("ghost") }
 
 //@ func parseTypeRef
 //@ props C15
-//@ requires response != nil && WfRef(response)
+//@ requires response != nil
+// the answer comes from a spec-compliant responder (the quantifier of C15): every chain it contains is well formed
+//@ assumes[compliant-answer] WfRef(response)
 //@ assumes[encoding] forallT(r, *IntrospectionTypeRef, r != nil ==> (r.Kind == "NON_NULL" ==> RefString(r) == RefString(r.OfType) + "!") && (r.Kind == "LIST" ==> RefString(r) == "[" + RefString(r.OfType) + "]") && (r.Kind != "NON_NULL" && r.Kind != "LIST" ==> RefString(r) == r.Name))
 //@ assumes[compliant] forallT(r, *IntrospectionTypeRef, r != nil && WfRef(r) ==> ((r.Kind == "NON_NULL" || r.Kind == "LIST") ==> r.OfType != nil && WfRef(r.OfType)) && (r.Kind == "NON_NULL" ==> r.OfType.Kind != "NON_NULL"))
 //@ ensures[inverse] result != nil && TString(result) == RefString(response)
@@ -112,4 +114,10 @@ func TString(t *ast.Type) string { panic("ghost") }
 
 //@ func sortPayload
 //@ props C07
+//@ end
+
+// C15: "argument names, types and default values": the declaration rebuilt for an argument keeps its default value
+//@ func parseArgList
+//@ props C15
+//@ ensures[defaults-kept] forall(i, 0, len(args), args[i].DefaultValue != nil ==> i < len(result) && result[i] != nil && result[i].DefaultValue != nil)
 //@ end
